@@ -64,13 +64,9 @@ Proof.
     destruct recon, (listed c); reflexivity.
 Qed.
 
-Lemma stored_synced amode cs foreign : amode <> 1 -> amode <> 2 ->
+Lemma stored_synced amode cs foreign : no_annotation amode = false -> keeps_foreign amode = false ->
   stored amode cs foreign = attach cs (webhook cs).
-Proof.
-  intros H1 H2. unfold stored.
-  replace (amode =? 1) with false by (symmetry; now apply Z.eqb_neq).
-  now replace (amode =? 2) with false by (symmetry; now apply Z.eqb_neq).
-Qed.
+Proof. intros H1 H2. unfold stored. now rewrite H1, H2. Qed.
 
 (* ---------- the reconciler prefers the pod spec, at both levels ---------- *)
 
@@ -396,5 +392,100 @@ Proof.
   exists (mkCfg true true (-100)),
          [mkCtr (Some 4000) (Some 4000) (Some 8589934592) (Some 8589934592)],
          [Some (mkCtr (Some 1000) (Some 1000) (Some 1073741824) (Some 1073741824))].
+  vm_compute. repeat split.
+Qed.
+
+(* ---------- init containers ---------- *)
+
+Lemma init_code_spec g H HI pod ri : init_code g H HI pod ri = 0 <-> init_holds g H HI pod ri.
+Proof.
+  unfold init_code, init_holds.
+  destruct (Nat.eqb (length ri) (length HI)) eqn:EL; cbn [negb].
+  2:{ split; [discriminate|]. intros [E _]. apply Nat.eqb_neq in EL. contradiction. }
+  apply Nat.eqb_eq in EL.
+  destruct (be g) eqn:Ebe; cbn [negb].
+  2:{ destruct (forallb res_untouchedb ri) eqn:E.
+      - split; [intros _|reflexivity]. split; [exact EL|]. split; [|discriminate].
+        intros _. apply Forall_forall. intros r Hr. apply res_untouchedb_spec.
+        rewrite forallb_forall in E. now apply E.
+      - split; [discriminate|]. intros [_ [Hn _]]. specialize (Hn eq_refl).
+        assert (forallb res_untouchedb ri = true); [|congruence].
+        apply forallb_forall. intros r Hr. apply res_untouchedb_spec. rewrite Forall_forall in Hn. now apply Hn. }
+  destruct (uses_batch (H ++ HI)) eqn:Hub; cbn [negb].
+  2:{ split; [intros _|reflexivity]. split; [exact EL|]. split; discriminate. }
+  destruct (forallb2 (ctr_okb g) HI ri) eqn:E2; cbn [negb].
+  2:{ split; [discriminate|]. intros [_ [_ Hb]]. destruct (Hb eq_refl eq_refl) as [H2 _].
+      apply (forallb2_spec _ _ (ctr_okb_spec g)) in H2. congruence. }
+  destruct (forallb (pod_coversb pod) ri) eqn:E3; cbn [negb].
+  2:{ split; [discriminate|]. intros [_ [_ Hb]]. destruct (Hb eq_refl eq_refl) as [_ H3].
+      assert (forallb (pod_coversb pod) ri = true); [|congruence].
+      apply forallb_forall. intros r Hr. apply pod_coversb_spec. rewrite Forall_forall in H3. now apply H3. }
+  split; [intros _|reflexivity]. split; [exact EL|]. split; [discriminate|]. intros _ _.
+  split; [now apply (forallb2_spec _ _ (ctr_okb_spec g))|].
+  apply Forall_forall. intros r Hr. apply pod_coversb_spec. rewrite forallb_forall in E3. now apply E3.
+Qed.
+
+Lemma prop_code_i_spec g H HI o ri :
+  prop_code_i g H HI o ri = 0 <-> C14_holds g H o /\ init_holds g H HI (fst o) ri.
+Proof.
+  unfold prop_code_i. cbv zeta. destruct (prop_code g H o =? 0) eqn:E.
+  - apply Z.eqb_eq in E. rewrite init_code_spec. split; [intro Hi; split; [now apply prop_code_spec|exact Hi]|tauto].
+  - apply Z.eqb_neq in E. split; [contradiction|]. intros [Hc _]. now apply prop_code_spec in Hc.
+Qed.
+
+Lemma init_code_nil g H pod : init_code g H [] pod [] = 0.
+Proof. unfold init_code. cbn. destruct (be g), (uses_batch (H ++ [])); reflexivity. Qed.
+
+(* every builder, every stored pod, any init containers: the main clauses hold or fail in the D10
+   shape; the init clauses can only fail when there are init containers (D11) *)
+Lemma view_i_only recon g p inits :
+  let o := run_i recon g p inits in
+  prop_code_i g (handed recon p) inits (fst o) (snd o) = 0
+  \/ d10_shape g (handed recon p) (fst o) = true
+  \/ d11_shape g (handed recon p) inits (fst o) (snd o) = true.
+Proof.
+  cbv zeta. unfold run_i. cbn [fst snd]. unfold prop_code_i, d11_shape. cbv zeta.
+  destruct (view_only_d10 recon g p) as [E|E]; [|right; now left].
+  rewrite E. cbn [Z.eqb andb].
+  match goal with |- context [init_code ?a ?b ?c ?d ?e] => destruct (Z.eq_dec (init_code a b c d e) 0) as [Ei|Ei] end.
+  - now left.
+  - right. right. destruct inits as [|c inits].
+    + exfalso. apply Ei. apply init_code_nil.
+    + now replace (_ =? 0) with false by (symmetry; now apply Z.eqb_neq).
+Qed.
+
+Lemma view_i_main recon g p : complete recon p = true ->
+  prop_code_i g (handed recon p) [] (run_b recon g p) [] = 0.
+Proof.
+  intro Hc. unfold prop_code_i. cbv zeta. rewrite (view_main recon g p Hc). cbn [Z.eqb]. apply init_code_nil.
+Qed.
+
+(* the reconciler gives every init container the conversion of its own declared amounts
+   (clause 10 cannot fail there) *)
+Lemma reconciler_init_conv g inits : be g = true ->
+  Forall2 (ctr_ok g) inits (map (fun c => container_out_e g (init_view true c)) inits).
+Proof.
+  intro Hbe. induction inits as [|c inits IH]; cbn [map]; constructor; [|exact IH].
+  unfold init_view. cbn [andb]. destruct (listed c) eqn:L.
+  - exact (ctr_ok_e g (Some c) Hbe).
+  - rewrite (unlisted_nothing c L). exact (ctr_ok_e g None Hbe).
+Qed.
+
+(* D11 witness: BE pod, main container batch-cpu 1000 / batch-memory 1Gi, init container
+   batch-cpu 4000 / batch-memory 8Gi, reconciler: the init container gets its own limits, the pod
+   holds the sum over spec.containers only *)
+Lemma d11_refuted :
+  exists g p inits, complete true p = true
+    /\ prop_code g (handed true p) (run_b true g p) = 0
+    /\ run_i true g p inits
+       = ((mkRes (Some 1024) (Some 100000) (Some 1073741824), [mkRes (Some 1024) (Some 100000) (Some 1073741824)]),
+          [mkRes (Some 4096) (Some 400000) (Some 8589934592)])
+    /\ prop_code_i g (handed true p) inits (fst (run_i true g p inits)) (snd (run_i true g p inits)) = 11
+    /\ prop_code_i g (handed false p) inits (fst (run_i false g p inits)) (snd (run_i false g p inits)) = 10.
+Proof.
+  exists (mkCfg true true (-100)).
+  exists (attach [mkCtr (Some 1000) (Some 1000) (Some 1073741824) (Some 1073741824)]
+                 (webhook [mkCtr (Some 1000) (Some 1000) (Some 1073741824) (Some 1073741824)])).
+  exists [mkCtr (Some 4000) (Some 4000) (Some 8589934592) (Some 8589934592)].
   vm_compute. repeat split.
 Qed.
